@@ -59,7 +59,8 @@ type sliceTypeFieldTextDecoder struct {
 func (d *sliceTypeFieldTextDecoder) Decode(req *protocol.Request, params param.Params, reqValue reflect.Value) error {
 	var err error
 	var texts []string
-	var defaultValue string
+	// the declared default is the field's default whichever of its tags are skipped ("-")
+	defaultValue := declaredDefault(d.tagInfos)
 	var bindRawBody bool
 	var isDefault bool
 	for _, tagInfo := range d.tagInfos {
